@@ -136,6 +136,9 @@ def build(ck, tier, seed, silent_services=None):
         for pre in sorted({0, len(g["canon"]) // 2, len(g["canon"])}):
             core.append({"prefix": pre, "ops": [], "ending": "linger", "seg": "whole", "k": 1})
             core.append({"prefix": pre, "ops": [], "ending": "silent!", "seg": "whole", "k": 1})
+        # the peer leaves after every prefix of the dialogue
+        for pre in range(1, len(g["canon"])):
+            core.append({"prefix": pre, "ops": [], "ending": "close", "seg": "whole", "k": 1})
         for pre, msg in bignum_variants(g):
             core.append({"prefix": pre, "ops": [], "literal": msg, "ending": "close", "seg": "whole", "k": 1})
         pick = core + rng.sample(small, min(per, len(small))) + rng.sample(sim, min(per // 2, len(sim)))
@@ -239,10 +242,14 @@ def explore(lab, scs, label, settle_ms=5000, idle_ms=0, rerun_done=False, idle_m
         if not res["began"] and "baseline" not in res["marks"]:
             raise lib.Infra("life child failed before the baseline: %s" % res["stderr"][-1500:])
         suspects = res["in_flight"] or res["began"][-24:]
+        if "alldone" in res["marks"]:
+            suspects = list(res["began"])
         culprits = []
 
+        late = "alldone" in res["marks"]        # it died while idle, after every scenario had finished: a timer of the server's
+
         def dies(ids):
-            one = run_child(lab, [byid[i] for i in ids], "%s-one" % label, 1500, 0, par=max(1, min(len(ids), 24)))
+            one = run_child(lab, [byid[i] for i in ids], "%s-one" % label, 1500, idle_ms if late else 0, par=max(1, min(len(ids), 24)))
             return (one["report"] is None or one["rc"] != 0), one
 
         def bisect(ids):
@@ -266,7 +273,7 @@ def explore(lab, scs, label, settle_ms=5000, idle_ms=0, rerun_done=False, idle_m
                 deaths.append(({"id": -1, "svc": "+".join(sorted({byid[i]["svc"] for i in ids})), "steps": [],
                                 "together": [byid[i] for i in ids[:6]]}, banner, site))
                 culprits.extend(ids)
-        bisect(suspects[:48])
+        bisect(suspects if "alldone" in res["marks"] else suspects[:48])
         if not culprits:
             # only dies in the company of the whole run: report the set
             banner, site = death_banner(res["stderr"])
